@@ -130,6 +130,28 @@ func (l *vouchLog) locked(fn func() verifsupport.Ev) {
 
 func (l *vouchLog) emit(ev verifsupport.Ev) { l.locked(func() verifsupport.Ev { return ev }) }
 
+// cancelThenSched reports whether a successful CancelJob for the slot's job and, after it, a successful
+// ScheduleJob under the same name have been written.
+func (l *vouchLog) cancelThenSched(slot uint64) bool {
+	l.mu.Lock()
+	defer l.mu.Unlock()
+	cancelled := false
+	for _, ev := range l.rows {
+		if s, ok := ev["slot"].(uint64); !ok || s != slot || ev["ok"] != true {
+			continue
+		}
+		switch ev["ev"] {
+		case "Cancel":
+			cancelled = true
+		case "Sched":
+			if cancelled {
+				return true
+			}
+		}
+	}
+	return false
+}
+
 // ---- chain time: the wall clock -------------------------------------------------------------------------
 
 type vouchWall struct {
@@ -564,6 +586,14 @@ func vouchRun(t *testing.T, sc *vouchScenario) []verifsupport.Ev {
 	steps := sc.Steps[1:]
 	var handlers sync.WaitGroup
 	nHead := 0
+	var holdSlot uint64
+	var holdHeld <-chan struct{}
+	var holdRelease func()
+	defer func() {
+		if holdRelease != nil {
+			holdRelease()
+		}
+	}()
 	for i := 0; i < len(steps); {
 		// the events of this half slot: spread over it
 		j := i
@@ -602,6 +632,35 @@ func vouchRun(t *testing.T, sc *vouchScenario) []verifsupport.Ev {
 					handler(ev)
 					log.emit(verifsupport.Ev{"ev": "HeadDone", "n": n})
 				}(nHead)
+			case "Hold":
+				// directed race: the goroutine of the slot's attestation job is kept where its select has just taken
+				// the timer branch (the scheduler's own hook; an interleaving the scheduler may produce by itself)
+				name := fmt.Sprintf("Attestations for slot %d", steps[k].E)
+				held, release, ok := advancedscheduler.VerifVouchHoldTimer(real, name)
+				holdSlot, holdHeld, holdRelease = steps[k].E, held, release
+				log.emit(verifsupport.Ev{"ev": "Note", "what": "hold", "slot": steps[k].E, "ok": ok})
+			case "Release":
+				// ... until the refresh has cancelled it and scheduled its successor under the same name (bounded wait)
+				if holdRelease != nil {
+					deadline := time.Now().Add(4 * dur)
+					arrived := false
+					for time.Now().Before(deadline) {
+						if !arrived {
+							select {
+							case <-holdHeld:
+								arrived = true
+							default:
+							}
+						}
+						if arrived && log.cancelThenSched(holdSlot) {
+							break
+						}
+						time.Sleep(time.Millisecond)
+					}
+					log.emit(verifsupport.Ev{"ev": "Note", "what": "release", "slot": holdSlot, "ok": arrived})
+					holdRelease()
+					holdRelease = nil
+				}
 			case "Reorg":
 				e := steps[k].E
 				log.locked(func() verifsupport.Ev {
